@@ -340,7 +340,9 @@ pub fn memory_requirement_ext_up_to(lhs_len: usize, rhs_len: usize) -> Layout {
         memory::array_layout::<Word>(t_words),
         memory::max_layout(
             div::memory_requirement_exact(lhs_len, rhs_len), //
-            mul::memory_requirement_up_to(lhs_len, lhs_len / 2), // for coeff update
+            // for coeff update: q * t1 has at most lhs_len words inside the loop, but the final product x * t1
+            // (x not trimmed after the division by the last word) can have lhs_len + 1: smaller factor <= ceil(lhs_len / 2)
+            mul::memory_requirement_up_to(lhs_len, (lhs_len + 1) / 2),
         ),
     )
 }
